@@ -742,7 +742,9 @@ class Interp:
             for x, y in zip(a.chars, b.chars):
                 if isinstance(x, int) and isinstance(y, int):
                     if x != y: return False
-                else: conds.append((x if z3.is_expr(x) else z3.BitVecVal(x, 32)) == (y if z3.is_expr(y) else z3.BitVecVal(y, 32)))
+                else:
+                    if not (z3.is_expr(x) or isinstance(x, int)) or not (z3.is_expr(y) or isinstance(y, int)): raise Unsupported(f'string with a non-character element: {x!r} / {y!r}')
+                    conds.append((x if z3.is_expr(x) else z3.BitVecVal(x, 32)) == (y if z3.is_expr(y) else z3.BitVecVal(y, 32)))
             return z3.And(conds) if conds else True
         if isinstance(a, Agg) and isinstance(b, Agg):
             if a.variant != b.variant or len(a.fields) != len(b.fields): return False
@@ -1047,6 +1049,28 @@ class Interp:
     def collect(self, it, target):
         items = self.drain(it)
         t = target
+        mt = re.search(r'collect::<(.*)>\s*$', t.strip())
+        if mt:
+            t = mt.group(1).strip(); head = re.sub(r'^(std|alloc|core)::(\w+::)*', '', t)
+            if head.startswith(('Result<', 'Option<')):
+                # collecting Results / Options: the first Err / None wins, otherwise the payloads are collected
+                inner = head[head.index('<') + 1:]
+                isres = head.startswith('Result<')
+                out = []
+                for x in items:
+                    if (isres and x.variant == 1) or (not isres and x.variant == 0): return x
+                    out.append(x.fields[0])
+                return Agg('Result' if isres else 'Option', 0 if isres else 1, [self.collect(SeqIter(out), 'collect::<' + split_top(inner[:-1] if inner.endswith('>') else inner)[0] + '>')])
+            if head.startswith('Vec<') or head.startswith('VecDeque<') or head.startswith('Box<['): return RVec(items)
+            if head.startswith(('HashSet<', 'BTreeSet<')):
+                mp = RMap('HashSet' if head.startswith('HashSet<') else 'BTreeSet')
+                for x in items: self.map_insert(mp, x, None)
+                return mp
+            if head.startswith(('HashMap<', 'BTreeMap<')):
+                mp = RMap('HashMap' if head.startswith('HashMap<') else 'BTreeMap')
+                for x in items: self.map_insert(mp, x.fields[0], x.fields[1])
+                return mp
+            t = head
         if re.search(r'\bString\b', t) and not re.search(r'Vec<', t):
             out = []
             for x in items:
@@ -1236,7 +1260,15 @@ class Interp:
         if e('Option::unwrap_or'): return args[0].fields[0] if args[0].variant == 1 else args[1]
         if e('Option::unwrap_or_default'):
             if args[0].variant == 1: return args[0].fields[0]
-            raise Unsupported('unwrap_or_default on None')
+            mt = re.search(r'Option::<(.+)>::unwrap_or_default', fname)
+            ty = mt.group(1).strip() if mt else ''
+            if ty in ('String', 'std::string::String', 'alloc::string::String'): return RString([])
+            if ty in ('usize', 'u8', 'u16', 'u32', 'u64', 'isize', 'i8', 'i16', 'i32', 'i64'): return 0
+            if ty == 'bool': return False
+            if ty.startswith(('Vec<', 'std::vec::Vec<')): return RVec([])
+            if ty.startswith(('HashMap<', 'std::collections::HashMap<')): return RMap('HashMap')
+            if ty.startswith(('HashSet<', 'std::collections::HashSet<')): return RMap('HashSet')
+            raise Unsupported('unwrap_or_default on None of type ' + ty)
         if e('Option::and_then'): return self.call_value(args[1], [args[0].fields[0]]) if args[0].variant == 1 else args[0]
         if e('Option::is_some_and'): return args[0].variant == 1 and self.truth(self.call_value(args[1], [args[0].fields[0]]))
         if e('Option::is_none_or'): return args[0].variant == 0 or self.truth(self.call_value(args[1], [args[0].fields[0]]))
@@ -1271,6 +1303,17 @@ class Interp:
             if it.pos >= len(it.chars): return Agg('Option', 0, [])
             it.peek_cell = Cell(it.chars[it.pos])
             return Agg('Option', 1, [Ptr(it.peek_cell)])
+        if e('Peekable::next_if') or e('Peekable::next_if_eq'):
+            it = gg(args[0])
+            if it.pos >= len(it.chars): return Agg('Option', 0, [])
+            c = it.chars[it.pos]
+            if e('Peekable::next_if_eq'):
+                want = gg(args[1])
+                ok = self.truth(self.equal(RStr([c]), RStr([want]))) if not (isinstance(c, int) and isinstance(want, int)) else c == want
+            else: ok = self.truth(self.call_value(args[1], [Ptr(Cell(c))]))
+            if not ok: return Agg('Option', 0, [])
+            it.pos += 1
+            return Agg('Option', 1, [c])
         if e('::is_whitespace'): return self.char_pred('ws', args[0])
         if e('::is_alphanumeric'): return self.char_pred('alnum', args[0])
         for nm_, lo_hi in (('is_ascii_digit', [(48, 57)]), ('is_ascii_uppercase', [(65, 90)]), ('is_ascii_lowercase', [(97, 122)]), ('is_ascii_alphabetic', [(65, 90), (97, 122)]),
